@@ -48,6 +48,44 @@ type LModule struct {
 	Loose   bool
 	// Header: bytes of comment lines in front of the module line of go.mod (a licence header)
 	Header int `json:",omitempty"`
+	// Top: the module directory is the first component of its files' paths (WORKDIR /app of a
+	// container): it is created directly under the file system root when that is writable,
+	// and removed together with the case's scratch directory.
+	Top bool `json:",omitempty"`
+}
+
+var (
+	topOnce sync.Once
+	topOK   bool
+)
+
+// canWriteTop: directories can be created directly under "/" (the checks run as root in a
+// sandbox); otherwise Top modules lie below the scratch directory like the others.
+func canWriteTop() bool {
+	topOnce.Do(func() {
+		p := fmt.Sprintf("/vt-probe-%d", os.Getpid())
+		if os.Mkdir(p, 0o755) == nil {
+			topOK = true
+			_ = os.Remove(p)
+		}
+	})
+	return topOK
+}
+
+// topPrefix names the top-level directories that belong to one scratch directory.
+func topPrefix(base string) string {
+	tag := os.Getenv("VERIF_TOPTAG")
+	if tag == "" {
+		tag = "0"
+	}
+	return "/vt-" + tag + "-" + filepath.Base(base) + "-"
+}
+
+func (m *LModule) root(base string) string {
+	if m.Top && canWriteTop() {
+		return topPrefix(base) + strings.ReplaceAll(m.Dir, "/", "_")
+	}
+	return base + "/" + m.Dir
 }
 
 // Layout is a whole configuration. Remote and local paths of modules coincide ("@BASE@/...").
@@ -145,7 +183,7 @@ func (l *Layout) truths(base string) []fileTruth {
 		}
 	}
 	for _, m := range l.Modules {
-		root := base + "/" + m.Dir
+		root := m.root(base)
 		for _, f := range m.Files {
 			imp := m.ModPath
 			if m.Loose {
@@ -187,7 +225,7 @@ func (l *Layout) materialise(base string) error {
 			if len(hdr) > m.Header {
 				hdr = hdr[:max(m.Header-1, 0)] + "\n"
 			}
-			if err := write(base+"/"+m.Dir+"/go.mod", hdr+"module "+m.ModPath+"\n\ngo 1.21\n"); err != nil {
+			if err := write(m.root(base)+"/go.mod", hdr+"module "+m.ModPath+"\n\ngo 1.21\n"); err != nil {
 				return err
 			}
 		}
@@ -394,6 +432,7 @@ func genLayout(t *rapid.T, nested bool) Layout {
 			// without go.mod an absent file resolves to nothing at all
 			m.ModPath = ""
 		}
+		m.Top = !nested && oneIn(t, 5, "topLevelModule")
 		l.Modules = append(l.Modules, m)
 	}
 	if nested && len(l.Modules) > 0 {
@@ -498,7 +537,7 @@ func sortedKeys(m map[string]string) []string {
 // generated. Such cases are outside what the generator controls and are skipped.
 func hostInterferes(refs []string, base string) bool {
 	for _, r := range refs {
-		if !strings.HasPrefix(r, "/") || (base != "" && strings.HasPrefix(r, base+"/")) {
+		if !strings.HasPrefix(r, "/") || (base != "" && (strings.HasPrefix(r, base+"/") || strings.HasPrefix(r, topPrefix(base)))) {
 			continue
 		}
 		if hostHas(r) {
